@@ -2439,3 +2439,36 @@ def r8_21(rep):
     rep.check(ok, "packed-fields-copied", "under `packed` the arguments are wrapped in blocks; the plain form is used only for unpacked structs" if ok else
               "field tokens are handed to `write!` as they are%s: for a packed struct `self.x` is borrowed (E0793)"
               % ("" if wrapped else ", whether or not the struct is packed"), b.loc((uncond_plain or ext)[0]))
+
+
+@RULES.rule("R8.22", "the analyses know every item whose result they read: what an opaque type hides is part of their universe", floor=2)
+def r8_22(rep):
+    """The through-opaque analyses (R8.20) answer for an opaque class from its bases and fields.  `generate_dependencies` therefore
+    traces an opaque item's innards as well — but records an innard only when it is allowlisted, and the worklists start from the
+    allowlisted items.  What an opaque type hides is reachable through nothing else (the allowlist traversal stops at it), so with
+    `--opaque-type Foo --allowlist-type Foo` the member `D d;` of `Foo` is never constrained, `have_destructor` has no entry for `D`,
+    and `Foo` derives Copy although `D` has a destructor (without the allowlist every item is a root and `Foo` does not).
+    In `generate_dependencies`: the recorder handed to the innards traces does not filter by allowlist membership."""
+    import qq
+    prog = rep.prog
+    b = rep.need(prog.fn("ir::analysis::generate_dependencies"), "ir::analysis::generate_dependencies")
+    inner = [c for c in b.calls(lambda x: x["k"] in ("MCall", "Call") and ((x.get("name") or "") in ("trace", "trace_bases_and_fields")))
+             if any("is_opaque" in a and pol for a, pol, _ in qq.guard_atoms(b, c))]
+    rep.need(inner, "the traces of an opaque item's innards in generate_dependencies")
+    for c in inner:
+        recs = []
+        for a in c["args"]:
+            for x in b.walk(a):
+                if x["k"] == "Local" and b.local_init(x["id"]) is not None and strip(b.local_init(x["id"])).get("k") == "Closure":
+                    recs.append(strip(b.local_init(x["id"])))
+                elif x["k"] == "Closure":
+                    recs.append(x)
+        if not rep.check(bool(recs), "innards-recorder@%s" % c.get("name"), "the callback of the innards trace is a closure of this function", b.loc(c)):
+            continue
+        pushes = [p for r in recs for p in b.walk(r) if p["k"] == "MCall" and p["name"] in ("push", "insert", "extend")]
+        filt = [a for p in pushes for a, pol, _ in qq.guard_atoms(b, p) if pol and "allowlisted_items" in a and "contains" in a]
+        rep.check(not filt, "opaque-innards-in-universe:%s@generate_dependencies" % c.get("name"),
+                  "innards are recorded whether allowlisted or not" if not filt else
+                  "an innard of an opaque item is only recorded when `%s`: what the opaque type hides is never allowlisted through it, "
+                  "so its facts are never computed (`--opaque-type Foo --allowlist-type Foo` with a member that has a destructor derives Copy)"
+                  % filt[0][:90], b.loc(c))
